@@ -181,6 +181,9 @@ def mon_c05(script, res):
 def mon_c06(script, res):
     if res['ended'] == 'crash':
         return 'exception escaped the main loop: %s' % (res.get('crash') or '')[-600:]
+    if res.get('hangs'):
+        return ('the main loop called %s on descriptor %d, which is in blocking mode, when the call could not complete: '
+                'the real daemon would stop servicing every process' % res['hangs'][0])
     return None
 
 
@@ -610,18 +613,24 @@ def hostile_script(rng, logdir):
         for _ in range(rng.randrange(1, 6)):
             parts.append(rng.choice([BEGIN, END, BEGIN[:rng.randrange(1, 24)], b'\xff\xfe', b'hello\n', b'\x1b[31m', b'\x1b[',
                                      bytes(rng.randrange(256) for _ in range(rng.randrange(0, 40))), b'x' * 3000,
-                                     (BEGIN + b'a' + END) * rng.choice([1, 5, 40])]))
+                                     (BEGIN + b'a' + END) * rng.choice([1, 5, 40, 40, 700])]))
         return list(b''.join(parts))
     if rng.random() < 0.6:
         s['pools'] = [{'events': rng.choice([['EVENT'], ['PROCESS_COMMUNICATION', 'PROCESS_LOG'], ['PROCESS_STATE', 'TICK_5'],
                                              ['PROCESS_COMMUNICATION_STDOUT', 'PROCESS_LOG_STDERR', 'SUPERVISOR_STATE_CHANGE']]),
                        'buffer': rng.choice([1, 3, 10]), 'procs': rng.choice([1, 2])}]
+    nreq = [0]
     for op in s['ops']:
         if 'pools' in s and rng.random() < 0.15:
             op['listener_reply'] = list(rng.choice([b'RESULT 4\nFAILREADY\n', b'garbage', b'RESULT x\n', b'RESULT 2\nOK', b'READY\n',
                                                     b'RESULT 0\nREADY\n', b'\xff\xfe', b'RESULT 99999999\n']))
         if 'pools' in s and rng.random() < 0.1:
             op['listener_deaf'] = 1
+        if 'pools' in s and rng.random() < 0.12:
+            nreq[0] += 1
+            op['acts'] = list(op['acts']) + [['remote', 9000 + nreq[0], rng.choice(['t', '', 'caf\u00e9', 7, '%s']),
+                                              rng.choice(['data', '', 42, -1, 2.5, True, 'caf\u00e9 \u2603', '%(x)s 100%',
+                                                          ['a', 1], {'k': 'v'}, 'x' * 70000])]]
         if rng.random() < 0.5:
             op['outputs'] = [[rng.randrange(4), rng.choice([1, 2]), hostile_bytes()] for _ in range(rng.randrange(1, 3))]
         if rng.random() < 0.3:
